@@ -100,6 +100,27 @@ Theorem C05_classify_elements : forall num chg rad nb h indb,
 Proof. exact classify_elements. Qed.
 Print Assumptions C05_classify_elements.
 
+(* ---- the specifications do not depend on the atom numbering: for every injective renumbering pi both checkers give the
+   same verdict on the renumbered pair (so a verdict obtained under one numbering holds under all) *)
+Theorem C05_kekule_rel_rename : forall pi : Z -> Z, (forall x y, pi x = pi y -> x = y) ->
+  forall g g', kekule_rel (rename pi g) (rename pi g') = kekule_rel g g'.
+Proof. exact kekule_rel_rename. Qed.
+Print Assumptions C05_kekule_rel_rename.
+
+Theorem C05_thiele_rel_rename : forall pi : Z -> Z, (forall x y, pi x = pi y -> x = y) ->
+  forall g g', thiele_rel (rename pi g) (rename pi g') = thiele_rel g g'.
+Proof. exact thiele_rel_rename. Qed.
+Print Assumptions C05_thiele_rel_rename.
+
+(* ---- shape of every successful __prepare_rings result (what the search relies on): every skeleton atom has two or three
+   skeleton neighbours; pyrroles and double_bonded are atoms of the skeleton *)
+Theorem C05_prepare_rings_shape : forall g sssr p, prepare_rings g sssr = Ok p ->
+  (forall n ms, In (n, ms) (r_rings p) -> List.length ms = 2%nat \/ List.length ms = 3%nat) /\
+  (forall n, In n (r_pyrroles p) -> In n (keys (r_rings p))) /\
+  (forall n, In n (r_double p) -> In n (keys (r_rings p))).
+Proof. exact prepare_rings_shape. Qed.
+Print Assumptions C05_prepare_rings_shape.
+
 (* ---- non-vacuity: accepted and rejected concrete rings; every listed element has accepted states; the driver on benzene *)
 Theorem C05_classify_accepts_each_element :
   forallb (fun num => existsb (fun chg => existsb (fun nb =>
